@@ -17,7 +17,12 @@
 typedef int S;
 
 #ifdef HELPER_BOUNDED
-#define vf_imul(a, b) ((long)(a) * (long)(b))
+/* the real product; operands of the bounded model are small (obligation), which lets the bit-blaster drop the high partial products */
+static long vf_imul_small(long a, long b) {
+    __CPROVER_assert(0 <= a && a <= 255 && 0 <= b && b <= 255, "bounded model: index-product operands within 0..255");
+    return (long)((int)(unsigned char)a * (int)(unsigned char)b);
+}
+#define vf_imul(a, b) vf_imul_small((long)(a), (long)(b))
 #define VF_LEMMA(c, text) __CPROVER_assert(c, "lemma checked (bounded unit): " text)
 #else
 long __CPROVER_uninterpreted_imul(long a, long b);
@@ -46,11 +51,15 @@ static void L_nonneg(long a, long c) {
 }
 static void L_lt(long a, long b, long c) { /* 0<=a<b, c>=0  ==>  0 <= a*c  and  a*c + c <= b*c */
     __CPROVER_assert(0 <= a && a < b && c >= 0, "lemma hypothesis: 0<=a<b, c>=0");
-    VF_LEMMA(vf_imul(a, c) >= 0 && vf_imul(a, c) + c <= vf_imul(b, c), "a*c + c <= b*c");
+    VF_LEMMA(vf_imul(a, c) >= 0 && vf_imul(b, c) >= 0 && vf_imul(a, c) <= vf_imul(b, c) - c, "0 <= a*c <= b*c - c");
 }
 static void L_le(long a, long b, long c) { /* 0<=a<=b, c>=0  ==>  0 <= a*c <= b*c */
     __CPROVER_assert(0 <= a && a <= b && c >= 0, "lemma hypothesis: 0<=a<=b, c>=0");
     VF_LEMMA(vf_imul(a, c) >= 0 && vf_imul(a, c) <= vf_imul(b, c), "a*c <= b*c");
+}
+static void L_le2(long a, long c, long d) { /* a>=0, 0<=c<=d  ==>  0 <= a*c <= a*d */
+    __CPROVER_assert(a >= 0 && 0 <= c && c <= d, "lemma hypothesis: a>=0, 0<=c<=d");
+    VF_LEMMA(vf_imul(a, c) >= 0 && vf_imul(a, c) <= vf_imul(a, d), "a*c <= a*d");
 }
 static void L_unit(long c) { /* 0*c == 0, 1*c == c, c*1 == c, c*0 == 0 */
     VF_LEMMA(vf_imul(0, c) == 0 && vf_imul(1, c) == c && vf_imul(c, 1) == c && vf_imul(c, 0) == 0, "0*c==0, 1*c==c");
@@ -59,6 +68,7 @@ static void L_comm(long a, long b) { VF_LEMMA(vf_imul(a, b) == vf_imul(b, a), "a
 static void L_pack(long j, long n, long i, long e) { /* (j*n + i)*e == j*(n*e) + i*e */
     VF_LEMMA(vf_imul(vf_imul(j, n) + i, e) == vf_imul(j, vf_imul(n, e)) + vf_imul(i, e), "(j*n+i)*e == j*(n*e) + i*e");
 }
+static void L_dist(long a, long b, long c) { VF_LEMMA(vf_imul(a + b, c) == vf_imul(a, c) + vf_imul(b, c), "(a+b)*c == a*c + b*c"); }
 static void L_assoc(long a, long b, long c) { /* (a*b)*c == b*(a*c) == a*(b*c) */
     VF_LEMMA(vf_imul(vf_imul(a, b), c) == vf_imul(b, vf_imul(a, c)) && vf_imul(vf_imul(a, b), c) == vf_imul(a, vf_imul(b, c)), "(a*b)*c == b*(a*c) == a*(b*c)");
 }
@@ -68,6 +78,7 @@ S*   g_old_data;   /* the allocation held on entry */
 S*   g_new_data;   /* the allocation made by allocateMemory(m,n) */
 long g_new_size;   /* its size in scalars */
 S*   g_obs;        /* the observed cell of the new allocation (arbitrary, fixed) or 0 */
+long g_obs_off = -1; /* its scalar offset (set by the harness before the call), -1: none */
 int  g_alloc_calls, g_clear_calls, g_freed_old;
 
 /* ---- contracted stubs of the MatrixHelperRep base (assumed contracts, see ctx.assume) ---- */
@@ -76,11 +87,12 @@ static S* vf_allocateMemory(const struct Helper* self, int m, int n) {
     __CPROVER_assert(m >= 0 && n >= 0, "allocateMemory(m,n): m>=0 && n>=0 (assert in the real code)");
     long nelt = vf_imul(m, n);
     long nsc = vf_imul(nelt, self->m_eltSize);
+    __CPROVER_assume(0 <= nelt && nelt < HELPER_BIG && 0 <= nsc && nsc < HELPER_BIG);       /* type invariant on sizes */
     g_alloc_calls++;
-    if (nelt == 0) { g_new_data = 0; g_new_size = 0; return 0; }
-    __CPROVER_assume(nsc > 0 && nsc < HELPER_BIG);       /* type invariant on sizes */
+    if (nelt == 0) { g_new_data = 0; g_new_size = 0; g_obs = 0; return 0; }
     g_new_data = (S*)malloc((size_t)nsc * sizeof(S));
     g_new_size = nsc;
+    g_obs = g_obs_off >= 0 ? g_new_data + g_obs_off : 0;
     return g_new_data;
 }
 /* void clearData(): frees the data if owner (handle not locked), then m_data = 0 */
@@ -96,17 +108,18 @@ static void vf_clearData(struct Helper* self) {
  * cell of the destination allocation is havocked).  Reads must lie in the OLD allocation, writes in the NEW one.
  * Bounded units: the element-by-element loop. */
 static void vf_copy(const S* first, const S* last, S* dest) {
-    long n = last - first;
-    __CPROVER_assert(n >= 0, "std::copy: last >= first");
+    __CPROVER_assert(__CPROVER_same_object(first, last), "std::copy: first and last delimit a range of one object");
+    __CPROVER_assert(__CPROVER_POINTER_OFFSET(last) >= __CPROVER_POINTER_OFFSET(first), "std::copy: last >= first");
+    size_t n = (__CPROVER_POINTER_OFFSET(last) - __CPROVER_POINTER_OFFSET(first)) / sizeof(S);   /* last - first (also for two null pointers) */
     if (n > 0) {
-        __CPROVER_assert(__CPROVER_same_object(first, g_old_data) && __CPROVER_r_ok(first, (size_t)n * sizeof(S)), "std::copy: source range inside the OLD allocation");
-        __CPROVER_assert(__CPROVER_same_object(dest, g_new_data) && __CPROVER_w_ok(dest, (size_t)n * sizeof(S)), "std::copy: destination range inside the NEW allocation");
+        __CPROVER_assert(__CPROVER_same_object(first, g_old_data) && __CPROVER_r_ok(first, n * sizeof(S)), "std::copy: source range inside the OLD allocation");
+        __CPROVER_assert(__CPROVER_same_object(dest, g_new_data) && __CPROVER_w_ok(dest, n * sizeof(S)), "std::copy: destination range inside the NEW allocation");
 #ifdef HELPER_BOUNDED
-        for (long k = 0; k < n; ++k) dest[k] = first[k];
+        for (size_t k = 0; k < n; ++k) dest[k] = first[k];
 #else
         if (g_obs) {
-            long k = g_obs - dest;
-            S keep = (0 <= k && k < n) ? first[k] : *g_obs;
+            size_t od = __CPROVER_POINTER_OFFSET(dest), oo = __CPROVER_POINTER_OFFSET(g_obs);
+            S keep = (oo >= od && (oo - od) / sizeof(S) < n) ? first[(oo - od) / sizeof(S)] : *g_obs;       /* k = g_obs - dest in [0,n) ? first[k] : unchanged */
             __CPROVER_havoc_object(dest);
             *g_obs = keep;
         } else
